@@ -199,9 +199,9 @@ func SelArg(t *rapid.T, label string) uint8 {
 func Color(t *rapid.T, label string) ops.ColorV {
 	switch rapid.IntRange(0, 5).Draw(t, label+".kind") {
 	case 0:
-		return ops.ColorV{T: 1, R: Sel(t, label+".pal")}
+		return ops.ColorV{T: 1, R: Sel(t, label+".pal")}.Norm()
 	case 1:
-		return ops.ColorV{T: 2, R: Sel(t, label+".creg")}
+		return ops.ColorV{T: 2, R: Sel(t, label+".creg")}.Norm()
 	case 2:
 		return ops.ColorV{T: 3, R: BlendT(t, label+".t"), G: rapid.Uint8().Draw(t, label+".c0"), B: rapid.Uint8().Draw(t, label+".c1")}
 	default:
@@ -237,6 +237,14 @@ func Palette(t *rapid.T, label string, valid bool) ops.Palette {
 			p[i] = ValidRGBA(t, l)
 		default:
 			p[i] = AnyRGBA(t, l)
+		}
+	}
+	if n > 0 && rapid.IntRange(0, 7).Draw(t, label+".uniform") == 0 {
+		// every explicit entry the same colour (all 64 transparent, say): valid, and unlike
+		// anything drawn entry by entry
+		v := rapid.SampledFrom([]color.RGBA{{}, {0x80, 0x80, 0x80, 0x80}, p[0], {0xff, 0xff, 0xff, 0xff}}).Draw(t, label+".uniformv")
+		for i := 0; i < n; i++ {
+			p[i] = v
 		}
 	}
 	return p
